@@ -387,10 +387,29 @@ class GWorld(World):
             out = []
             for a in args:
                 out.extend(it.star_items(a, node, it.stack[-1]))
-            return out
+            from .interp import IterV as _IterV
+
+            return _IterV(out)  # a one-shot iterator
         if name == "itertools.product":
             its = [it.star_items(a, node, it.stack[-1]) for a in args]
             return list(itertools.product(*its))
+        if name.split(".")[0] == "networkx" and name.split(".")[-1] == "topological_sort" and args \
+                and isinstance(args[0], GraphV):
+            g = args[0]
+            indeg = {n: len(g.pred[n]) for n in g.node}
+            ready = [n for n in g.node if indeg[n] == 0]
+            out = []
+            while ready:
+                n = ready.pop(0)
+                out.append(n)
+                for m in g.succ[n]:
+                    indeg[m] -= 1
+                    if indeg[m] == 0:
+                        ready.append(m)
+            if len(out) != len(g.node):
+                raise Raised("NetworkXUnfeasible", node, it.stack[-1].fi if it.stack else None,
+                             "Graph contains a cycle or graph changed during iteration")
+            return out
         if name in ("networkx.DiGraph", "networkx.classes.digraph.DiGraph"):
             return GraphV()
         if name == "casadi.Function":
